@@ -51,7 +51,7 @@ def run_checks(d: Path, checks, tier, workers):
 
 def run_tests(d: Path):
     p = subprocess.run(
-        ["/venv/bin/python", "-m", "pytest", "-q", "-p", "no:cacheprovider", "--timeout=900",
+        ["/venv/bin/python", "-m", "pytest", "-q", "-p", "no:cacheprovider", "--timeout=60",
          "--continue-on-collection-errors", "-p", "no:sugar", "--junitxml", str(d / ".junit.xml")],
         cwd=str(d), capture_output=True, text=True, env=dict(os.environ, PYTHONDONTWRITEBYTECODE="1"))
     # compare with the stable baseline: every baseline test must still pass
